@@ -52,24 +52,25 @@ type Sim struct {
 	// C22 cumulative model is drv.Cumulative; lifecycle tables
 	life *lifecycle
 
-	simSeconds    float64
-	sched         map[string]int64
-	relayEntropy  int64
-	served        map[string]int
-	sessions      map[string]string
-	claims        map[string]*claimInst
-	viewCache     map[int64]*View
-	forged        map[string]string
-	dupEvidence   map[string]bool
-	effective     map[string]bool // "height/index" of deliveries with a non-empty diff
-	addrIdx       map[string]int
-	jailEnd       map[string]time.Time        // C25: end of the downtime jail period per node, the simulator's own record
-	jailEdited    map[string]bool             // C25: the node was edit-staked while serving that period
-	members       map[string]map[string]bool  // session header hash -> addresses seen in its node list (dispatch)
-	memberHeaders map[string]pc.SessionHeader // session header hash -> header
-	outsider      map[string]bool             // claim keys of claims made by nodes outside the session
-	replay        bool
-	aborted       bool
+	simSeconds          float64
+	sched               map[string]int64
+	relayEntropy        int64
+	served              map[string]int
+	sessions            map[string]string
+	claims              map[string]*claimInst
+	viewCache           map[int64]*View
+	forged              map[string]string
+	dupEvidence         map[string]bool
+	effective           map[string]bool // "height/index" of deliveries with a non-empty diff
+	addrIdx             map[string]int
+	jailEnd             map[string]time.Time        // C25: end of the downtime jail period per node, the simulator's own record
+	jailEdited          map[string]bool             // C25: the node was edit-staked while serving that period
+	restartedSinceBlock bool                        // the node was restarted and has not executed a block since
+	members             map[string]map[string]bool  // session header hash -> addresses seen in its node list (dispatch)
+	memberHeaders       map[string]pc.SessionHeader // session header hash -> header
+	outsider            map[string]bool             // claim keys of claims made by nodes outside the session
+	replay              bool
+	aborted             bool
 }
 
 func (s *Sim) violate(prop, oracle, subject, detail string) {
@@ -378,6 +379,7 @@ func (s *Sim) execBlock(st *Step) {
 		}
 	}
 	bo.finish(res)
+	s.restartedSinceBlock = false // (until its first Commit a restarted node has no check-state header)
 }
 
 // crashDuringCommit (C07 at application level): the block was executed and committed normally, so
@@ -429,6 +431,7 @@ func (s *Sim) crashDuringCommit(spec *BlockSpec, done *BlockResult, appPre, idxP
 		// the handshake re-indexes the block from the stored responses
 		IndexBlock(s.node, spec, done)
 		s.res.Probe("crash_recovered_at_new_height")
+		s.restartedSinceBlock = true
 	case h - 1:
 		if prev != nil {
 			if ch := Diff(prev, TakeDump(s.node, h-1)); len(ch) > 0 {
@@ -456,6 +459,7 @@ func (s *Sim) crashDuringCommit(spec *BlockSpec, done *BlockResult, appPre, idxP
 
 func (s *Sim) restart() {
 	s.res.Fault("restart")
+	s.restartedSinceBlock = true
 	before := s.committed
 	s.node = s.node.Restart(nil)
 	after := TakeDump(s.node, s.drv.Height)
